@@ -658,6 +658,8 @@ def graph_strategy(tier: str):
             'pos': vec3(512),
             'ang': angle_triple(),
             'style': st.integers(0, 2),
+            # classnames are matched case-insensitively everywhere in srctools
+            'cls': st.sampled_from(['func_instance', 'func_instance', 'Func_Instance', 'FUNC_INSTANCE']),
         })
         filed = st.fixed_dictionaries({
             'targets': st.lists(st.fixed_dictionaries({'name': st.sampled_from(['t1', 'T2', '@g']), 'origin': vec3(256)}), max_size=2),
@@ -677,7 +679,7 @@ def execute_all(desc, ctx):
     from srctools import instancing
 
     def add_inst(vmf, i):
-        vmf.create_ent('func_instance', targetname=i['name'], file=f'f{i["file"]}.vmf', origin=fmt_vec(i['pos']),
+        vmf.create_ent(i.get('cls', 'func_instance'), targetname=i['name'], file=f'f{i["file"]}.vmf', origin=fmt_vec(i['pos']),
                        angles=fmt_vec(i['ang']), fixup_style=str(i['style']))
 
     texts = {}
@@ -723,10 +725,13 @@ def execute_all(desc, ctx):
     calls = [0]
     real_collapse = instancing.collapse_one
 
+    class _TooManyCollapses(Exception):
+        pass
+
     def counting(*a, **k):
         calls[0] += 1
-        if calls[0] > 5000:
-            raise HarnessError('collapse_all made more than 5000 collapses for a graph bounded at 2^5 per pass')
+        if calls[0] > total_collapses + 50:
+            raise _TooManyCollapses()      # would not terminate (or far beyond what recur_limit passes allow): stop the loop
         return real_collapse(*a, **k)
 
     instancing.collapse_one = counting
@@ -736,6 +741,10 @@ def execute_all(desc, ctx):
             instancing.collapse_all(main, fsys, recur_limit=limit)
         except RecursionError as exc:
             raised = exc
+        except _TooManyCollapses:
+            ctx.fail('termination', f'collapse_all kept collapsing: more than {total_collapses + 50} collapses although the inclusion '
+                                    f'graph allows at most {total_collapses} within recur_limit={limit} passes (does not terminate)')
+            return
     finally:
         instancing.collapse_one = real_collapse
 
@@ -743,6 +752,8 @@ def execute_all(desc, ctx):
     cyclic = _has_cycle(desc)
     if cyclic:
         ctx.label('cyclic_graph')
+        if any(i.get('cls', 'func_instance') != 'func_instance' for fd in desc['files'] for i in fd['insts']):
+            ctx.label('cyclic_mixed_case_classname')
     ctx.nontrivial(cyclic or passes >= 2)
     ctx.check(calls[0] <= total_collapses, 'termination',
               f'collapse_all performed {calls[0]} collapses, the inclusion graph allows at most {total_collapses} in {limit} passes')
@@ -790,6 +801,6 @@ SUBCHECKS = [
         must_hit=('arbitrary_rotation', 'repeat_collapse', 'nested_instance_with_fixups', 'displacement',
                   'unknown_key_collapsed_twice', 'reset_warnings')),
     Sub('collapse_all', execute_all, strategy=graph_strategy, quick=600, thorough=30000, floor=20,
-        must_hit=('cyclic_graph', 'finishes', 'exceeds_limit')),
+        must_hit=('cyclic_graph', 'cyclic_mixed_case_classname', 'finishes', 'exceeds_limit')),
 ]
 MATCHERS = {}
